@@ -101,6 +101,19 @@ def discharge_texts(items, timeout_ms=20000, jobs=None, use_cvc5=True, cvc5_all=
             with mp.get_context("fork").Pool(min(jobs, len(again))) as pool:
                 for key, res, secs, extra in pool.imap_unordered(_cvc5_worker, again):
                     results[key].update(cvc5=res, cvc5_s=secs, cvc5_extra=extra)
+    # a query that neither solver decided gets one more z3 run with a fresh random seed and three times the budget,
+    # a few at a time: a time-out on a busy machine must not look like a failed proof
+    retry = [k for k in order if uniq[k]["kind"] != "vacuity" and results[k]["z3"] in ("unknown", "error")
+             and results[k].get("cvc5") not in ("unsat", "sat")]
+    if retry and len(retry) <= 24:
+        work2 = [(k, "(set-option :smt.random_seed 7)\n" + uniq[k]["smt2"], 3 * timeout_ms) for k in retry]
+        with mp.get_context("fork").Pool(min(4, len(work2))) as pool:
+            for key, res, secs, extra in pool.imap_unordered(_z3_worker, work2):
+                results[key]["z3_retry"] = res
+                results[key]["z3_s"] = round(results[key]["z3_s"] + secs, 3)
+                if res in ("unsat", "sat"):
+                    results[key]["z3"] = res
+                    results[key]["z3_extra"] = extra
     out = []
     for k in order:
         d = dict(uniq[k])
